@@ -16,6 +16,8 @@ from ..core import AnalysisError, Func, Repo, Report, call_name, calls_in, chain
 from ..dataflow import DefUse
 from ..resolve import Resolver
 from ..sites import guard_chain
+from .util import canon, cguards
+import re
 from .c15 import ACCUMULATORS, _lowerer_attr, mutated_attrs, scoped_state
 
 
@@ -26,10 +28,28 @@ def run(repo: Repo, rep: Report, tier: str) -> None:
     # ---------------- R1 ---------------------------------------------------------------
     rep.rule("C16-R1", "get_iteration_values is range(start, stop, step) or the explicit form: under step > 0 a loop `while i < stop` (strict), "
              "under step < 0 `while i > stop` (strict), i starts at start, the value is appended before i advances by step; the list form returns the listed values in order")
+    du = DefUse(giv)
+    roles: dict[str, str] = {}
+    for role in ("start", "stop", "step"):
+        for nm, ds in du.defs.items():
+            if nm not in roles and any(isinstance(x, ast.Attribute) and x.attr == role and norm(x.value) == "self" for v, how, _st in ds if how == "assign" for x in ast.walk(v)):
+                roles[nm] = role
+
+    def rn(e: ast.AST | None) -> str:
+        """source text with the locals that hold the resolved bounds renamed to their role (start / stop / step)"""
+        if e is None:
+            return ""
+        import copy
+        e2 = copy.deepcopy(e)
+        for x in ast.walk(e2):
+            if isinstance(x, ast.Name) and x.id in roles:
+                x.id = roles[x.id]
+        return " ".join(ast.unparse(e2).split())
+
     uses_range = [c for c in calls_in(giv.node, "range") if len(c.args) == 3]
     whiles = [n for n in walk_local(giv.node) if isinstance(n, ast.While)]
     if uses_range and not whiles:
-        a = [norm(x) for x in uses_range[0].args]
+        a = [rn(x) for x in uses_range[0].args]
         rep.check(a == ["start", "stop", "step"], "C16-R1", "range idiom has arguments (start, stop, step)", f"range({', '.join(a)})", giv.loc(uses_range[0]))
     else:
         rep.floor("C16-R1", "explicit range loops", len(whiles), 2)
@@ -38,17 +58,17 @@ def run(repo: Repo, rep: Report, tier: str) -> None:
             guards = guard_chain(giv, w, pm)
             direction = None
             for t, pol in guards:
-                txt = norm(t)
+                txt = rn(t)
                 if pol and txt in ("step > 0", "0 < step"):
                     direction = "up"
                 elif pol and txt in ("step < 0", "0 > step"):
                     direction = "down"
             if direction is None:
-                rep.unknown("C16-R1", f"range loop `while {norm(w.test)}` direction guard", f"guards {[norm(t) for t, _ in guards]} not recognised", giv.loc(w))
+                rep.unknown("C16-R1", f"range loop `while {rn(w.test)}` direction guard", f"guards {[rn(t) for t, _ in guards]} not recognised", giv.loc(w))
                 continue
             seen_dirs.add(direction)
             test = w.test
-            ok_test = isinstance(test, ast.Compare) and len(test.ops) == 1 and isinstance(test.left, ast.Name) and norm(test.comparators[0]) == "stop" and (
+            ok_test = isinstance(test, ast.Compare) and len(test.ops) == 1 and isinstance(test.left, ast.Name) and rn(test.comparators[0]) == "stop" and (
                 (direction == "up" and isinstance(test.ops[0], ast.Lt)) or (direction == "down" and isinstance(test.ops[0], ast.Gt)))
             rep.check(ok_test, "C16-R1", f"{direction}ward range loop stops strictly before `stop`",
                       f"while {norm(test)}" + ("" if ok_test else ": the end value must be excluded and the comparison must follow the direction"), giv.loc(w))
@@ -56,7 +76,7 @@ def run(repo: Repo, rep: Report, tier: str) -> None:
             body = w.body
             app_idx = next((k for k, st in enumerate(body) if isinstance(st, ast.Expr) and isinstance(st.value, ast.Call) and call_name(st.value) == "append" and norm(st.value.args[0]) == ivar), None)
             adv_idx = next((k for k, st in enumerate(body) if isinstance(st, ast.AugAssign) and norm(st.target) == ivar), None)
-            ok_body = app_idx is not None and adv_idx is not None and app_idx < adv_idx and isinstance(body[adv_idx].op, ast.Add) and norm(body[adv_idx].value) == "step" and len(body) == 2
+            ok_body = app_idx is not None and adv_idx is not None and app_idx < adv_idx and isinstance(body[adv_idx].op, ast.Add) and rn(body[adv_idx].value) == "step" and len(body) == 2
             rep.check(ok_body, "C16-R1", f"{direction}ward range loop appends the value, then advances by step",
                       "; ".join(norm(s) for s in body), giv.loc(w))
             # initialisation just before the loop
@@ -65,23 +85,22 @@ def run(repo: Repo, rep: Report, tier: str) -> None:
                 block = getattr(pm[w], "orelse", [])
             idx = block.index(w)
             init = block[idx - 1] if idx > 0 else None
-            ok_init = isinstance(init, ast.Assign) and norm(init.targets[0]) == ivar and norm(init.value) == "start"
+            ok_init = isinstance(init, ast.Assign) and norm(init.targets[0]) == ivar and rn(init.value) == "start"
             rep.check(ok_init, "C16-R1", f"{direction}ward range loop starts at `start`", norm(init) if init is not None else "no initialisation", giv.loc(w))
         rep.check(seen_dirs == {"up", "down"}, "C16-R1", "both ascending and descending ranges are produced", f"directions handled: {sorted(seen_dirs)}", giv.loc())
     # resolved bounds feed the loop
-    du = DefUse(giv)
     for name, attr in (("start", "self.start"), ("stop", "self.stop"), ("step", "self.step")):
-        leaves = {str(l) for l in du.leaves(ast.Name(id=name, ctx=ast.Load()))}
-        rep.check(f"attr:{attr}" in leaves, "C16-R1", f"`{name}` is the loop's own {attr}", f"derives from {sorted(l for l in leaves if not l.startswith('const'))}", giv.loc())
+        holders = [nm for nm, r in roles.items() if r == name]
+        rep.check(len(holders) == 1, "C16-R1", f"`{name}` is the loop's own {attr}", f"held by local(s) {holders}", giv.loc())
     # list form
     rets = [n for n in walk_local(giv.node) if isinstance(n, ast.Return) and n.value is not None and "self.values" in norm(n.value)]
     ok_list = bool(rets) and all(norm(r.value) in ("list(self.values)", "self.values", "self.values[:]", "self.values.copy()") for r in rets)
     rep.check(ok_list, "C16-R1", "list form returns the listed values in order", norm(rets[0].value) if rets else "no return of self.values", giv.loc(rets[0]) if rets else giv.loc())
     # default step
     for n in walk_local(giv.node):
-        if isinstance(n, ast.If) and norm(n.test) == "step is None":
+        if isinstance(n, ast.If) and rn(n.test) == "step is None":
             v = n.body[0].value if n.body and isinstance(n.body[0], ast.Assign) else None
-            ok = v is not None and norm(v) in ("1 if start < stop else -1", "1")
+            ok = v is not None and rn(v) in ("1 if start < stop else -1", "1")
             rep.check(ok, "C16-R1", "default step is +1 (or follows the direction of the bounds)", norm(v), giv.loc(n))
 
     # ---------------- R2 ---------------------------------------------------------------
@@ -186,11 +205,23 @@ def run(repo: Repo, rep: Report, tier: str) -> None:
     ret = [n for n in walk_local(ri.node) if isinstance(n, ast.Return) and isinstance(n.value, ast.Dict)]
     if not ret:
         raise AnalysisError("C16-R5: range_iterator result dict not found")
-    d = {k.value: norm(v) for k, v in zip(ret[0].value.keys, ret[0].value.values) if isinstance(k, ast.Constant)}
-    rep.check(d.get("start") == "bounds[0]" and d.get("stop") == "bounds[1]", "C16-R5", "range_iterator: start is the first bound, stop the second", str(d), ri.loc(ret[0]))
-    step_src = [n for n in walk_local(ri.node) if isinstance(n, ast.Assign) and norm(n.targets[0]) == d.get("step") and not isinstance(n.value, ast.Constant)]
-    ok_step = bool(step_src) and any("STEP_KW" in norm(t) for s in step_src for t, pol in guard_chain(ri, s, parents_map(ri.node)) if pol) and all(norm(s.value) == "items[i + 1]" for s in step_src)
-    rep.check(ok_step, "C16-R5", "range_iterator: step is the bound following STEP_KW", "; ".join(norm(s) for s in step_src), ri.loc(step_src[0]) if step_src else ri.loc())
+    dn = {k.value: v for k, v in zip(ret[0].value.keys, ret[0].value.values) if isinstance(k, ast.Constant)}
+    cri = canon(ri)
+    dur = DefUse(ri)
+    st_, sp_ = dn.get("start"), dn.get("stop")
+    ok = isinstance(st_, ast.Subscript) and isinstance(sp_, ast.Subscript) and isinstance(st_.value, ast.Name) and isinstance(sp_.value, ast.Name) and st_.value.id == sp_.value.id \
+        and norm(st_.slice) == "0" and norm(sp_.slice) == "1"
+    if ok:
+        adds = [v for v, how, _ in dur.defs.get(st_.value.id, []) if how == "elem-add"]
+        ok = len(adds) == 1 and re.fullmatch(r"items\[.+\]", cri.text(adds[0])) is not None and not any(call_name(c) in ("sorted", "reversed", "sort", "reverse", "insert") for c in calls_in(ri.node))
+    rep.check(ok, "C16-R5", "range_iterator: start is the first bound, stop the second", "start = bounds[0], stop = bounds[1]; bounds appended in item order" if ok else str({k: norm(v) for k, v in dn.items()}), ri.loc(ret[0]))
+    step_alts = sorted(cri.alts(dn["step"])) if "step" in dn else []
+    step_src = [n for n in walk_local(ri.node) if isinstance(n, ast.Assign) and isinstance(dn.get("step"), ast.Name) and norm(n.targets[0]) == dn["step"].id and not isinstance(n.value, ast.Constant)]
+    ok_step = len(step_alts) == 2 and "1" in step_alts and bool(step_src)
+    for s_ in step_src:
+        m_ = re.fullmatch(r"items\[(.+) \+ 1\]", cri.text(s_.value))
+        ok_step = ok_step and m_ is not None and any(pol and f"items[{m_.group(1)}].type == 'STEP_KW'" in g for g, pol in cguards(ri, s_))
+    rep.check(ok_step, "C16-R5", "range_iterator: step is the bound following STEP_KW", "; ".join(step_alts)[:120], ri.loc(step_src[0]) if step_src else ri.loc())
     li = tr.methods["list_iterator"]
     ok_li = any(isinstance(n, ast.For) and norm(n.iter) == "items" for n in walk_local(li.node)) and any(call_name(c) == "append" for c in calls_in(li.node)) and not any(call_name(c) in ("sorted", "reversed", "sort", "reverse", "set") for c in calls_in(li.node))
     rep.check(ok_li, "C16-R5", "list_iterator keeps the listed values in source order", "appends in item order" if ok_li else "values are reordered or deduplicated", li.loc())
